@@ -147,15 +147,18 @@ def err_reaches_exit(ctx):
     m = r.main_body()
     relays = {r.fn_of(x).name for x in r.relays()}
     # the engine entry: local async fn awaited in main's block that reaches a relay
-    eng = [a for a in awaits(ma) if a.callee in f.bodies and relays & f.cg.reach([a.callee], cross_spawn=False)]
-    # with helpers spliced in, nested awaits (run -> execute_once) are visible too: the engine entry is the outermost one (it dominates the others)
-    eng = [a for a in eng if not any(b is not a and ma.dominates(b.into_bb, a.into_bb) and a.into_bb in (ma.reach_from(b.into_bb) - (ma.reach_from(b.ready_bb) if b.ready_bb is not None else set())) for b in eng)]
-    ctx.need(len(eng) == 1, f"await of the engine entry point in main (found {len(eng)})")
-    eng = eng[0]
-    # shutdown: awaited local async fn that reaches a send of TerminationMessage
     def is_shutdown(n):
         return any(any(tyname(s[2]) == "TerminationMessage" for s in send_calls(f.bodies[x])) for x in f.cg.reach([n], cross_spawn=False) if x in f.bodies)
-    shut = [a for a in awaits(ma) if a.callee in f.bodies and a is not eng and is_shutdown(a.callee)]
+
+    def outermost_awaits(cands):
+        # with helpers spliced in, nested awaits (run -> execute_once) are visible too: keep those not nested inside another candidate's await
+        return [a for a in cands if not any(b is not a and ma.dominates(b.into_bb, a.into_bb) and
+                                            a.into_bb in (ma.reach_from(b.into_bb) - (ma.reach_from(b.ready_bb) if b.ready_bb is not None else set())) for b in cands)]
+    # the engine entry runs the relays but does not itself shut the actors down; the shutdown tells the actors to terminate but runs no relay
+    eng = outermost_awaits([a for a in awaits(ma) if a.callee in f.bodies and relays & f.cg.reach([a.callee], cross_spawn=False) and not is_shutdown(a.callee)])
+    ctx.need(len(eng) == 1, f"await of the engine entry point in main (found {len(eng)})")
+    eng = eng[0]
+    shut = outermost_awaits([a for a in awaits(ma) if a.callee in f.bodies and a is not eng and is_shutdown(a.callee) and not (relays & f.cg.reach([a.callee], cross_spawn=False))])
     if not shut:
         ctx.bad("main/shutdown", [site(ma, eng.into_bb)], "main never awaits the shutdown of the actors")
         return
@@ -171,7 +174,8 @@ def err_reaches_exit(ctx):
     if not tries:
         ctx.bad("main/result-propagated", [site(ma, eng.into_bb)], "the result of the engine run is not propagated with `?`: a failed target would exit 0")
     for (tb, ce, be) in tries:
-        ctx.check(tb in (ma.reach_from(sh.ready_bb) | {sh.ready_bb}) and ma.dominates(sh.into_bb, tb), "main/result-after-shutdown", [site(ma, tb)],
+        before = tb in (ma.reach_from(eng.ready_bb, avoid=(sh.into_bb,)) | {eng.ready_bb})
+        ctx.check(tb in (ma.reach_from(sh.ready_bb) | {sh.ready_bb}) and not before, "main/result-after-shutdown", [site(ma, tb)],
                   "the engine's error is returned before the actors are shut down")
     # main returns block_on's value
     ok = False
